@@ -279,8 +279,10 @@ class FakeOS:
     def listdir(self, p):
         return self.fs.listdir(p)
 
+    pid = 4242
+
     def getpid(self):
-        return 4242
+        return self.pid
 
 
 class FakeGlob:
